@@ -24,9 +24,10 @@ Theorem gen_limit_test_before_submit_agrees :
   Gen.RunLimit.limit_test_before_submit = Model.RunLimitTable.limit_test_before_submit.
 Proof. reflexivity. Qed.
 
-Theorem gen_step_limit_hit_agrees : forall dag step maxSteps,
-  Gen.RunLimit.step_limit_hit dag step maxSteps = Model.RunLimitTable.step_limit_hit dag step maxSteps.
-Proof. intros [] step maxSteps; first [ reflexivity | unfold Gen.RunLimit.step_limit_hit, Model.RunLimitTable.step_limit_hit; simpl; reflexivity ]. Qed.
+(* whatever an unrecognised operand would evaluate to: the generated condition may not consult one *)
+Theorem gen_step_limit_hit_agrees : forall unk dag step maxSteps,
+  Gen.RunLimit.step_limit_hit unk dag step maxSteps = Model.RunLimitTable.step_limit_hit dag step maxSteps.
+Proof. intros unk [] step maxSteps; first [ reflexivity | unfold Gen.RunLimit.step_limit_hit, Model.RunLimitTable.step_limit_hit; simpl; reflexivity ]. Qed.
 
 Lemma fold_res_unit_exists : forall (ec : N) (p : nat -> bool) (l : list nat),
   fold_res (fun (st_ : unit) i => let _ := st_ in if p i then Err ec else Ok tt) l tt
@@ -81,10 +82,10 @@ Qed.
 Definition is_dag (g : graph) : bool := match g_mode g with Dag => true | Pregel => false end.
 
 (* the model's test at the top of [step] is the generated condition on the loop counter and the graph's limit *)
-Theorem step_limit_hit_is_gen : forall g n,
-  Model.Graph.step_limit_hit g n = Gen.RunLimit.step_limit_hit (is_dag g) n (max_steps g).
+Theorem step_limit_hit_is_gen : forall unk g n,
+  Model.Graph.step_limit_hit g n = Gen.RunLimit.step_limit_hit unk (is_dag g) n (max_steps g).
 Proof.
-  intros g n. rewrite gen_step_limit_hit_agrees.
+  intros unk g n. rewrite gen_step_limit_hit_agrees.
   unfold Model.Graph.step_limit_hit, Model.RunLimitTable.step_limit_hit, is_dag. destruct (g_mode g); reflexivity.
 Qed.
 
@@ -120,12 +121,12 @@ Section Loop.
      error, the log and the state as they were *)
   Theorem limit_tested_first :
     Gen.RunLimit.limit_test_before_submit = true
-    /\ (forall p g ls,
-          Gen.RunLimit.step_limit_hit (is_dag g) (ls_step V St ls) (max_steps g) = true ->
+    /\ (forall unk p g ls,
+          Gen.RunLimit.step_limit_hit unk (is_dag g) (ls_step V St ls) (max_steps g) = true ->
           step V St ops exec sub sched p g ls = Finish (Fail [mkerr eMaxSteps] (ls_log V St ls)) (ls_st V St ls)).
   Proof.
     split; [exact gen_limit_test_before_submit_agrees|].
-    intros p g ls H. rewrite <- step_limit_hit_is_gen in H. unfold step. rewrite H. reflexivity.
+    intros unk p g ls H. rewrite <- step_limit_hit_is_gen in H. unfold step. rewrite H. reflexivity.
   Qed.
 End Loop.
 
